@@ -32,12 +32,14 @@ func onehot(dim int, idx ...int) []float32 {
 func f32(v float32) *float32 { return &v }
 
 func symbols(dim int) *sl.Symbols {
-	lat := sl.Lattice(12, dim)
+	lat := sl.Lattice(16, dim)
 	d := func(i int) sl.Doc { return sl.Doc{prop: lat[i], "k": int64(i)} }
 	syms := sl.NewSymbols(
 		sl.Op{Name: "ins1", Kind: "ins", Ids: []int{1}, Docs: []sl.Doc{d(0)}},
 		sl.Op{Name: "ins2,3,4", Kind: "ins", Ids: []int{2, 3, 4}, Docs: []sl.Doc{d(1), d(2), d(3)}},
 		sl.Op{Name: "ins5(no vector),6", Kind: "ins", Ids: []int{5, 6}, Docs: []sl.Doc{{"k": int64(5)}, d(5)}},
+		sl.Op{Name: "ins7,8(no vector)", Kind: "ins", Ids: []int{7, 8}, Docs: []sl.Doc{{"k": int64(7)}, {"k": int64(8)}}},
+		sl.Op{Name: "upd8,7(add vectors, later point first)", Kind: "upd", Ids: []int{8, 7}, Docs: []sl.Doc{{prop: lat[12]}, {prop: lat[13]}}},
 		sl.Op{Name: "upd1(move)", Kind: "upd", Ids: []int{1}, Docs: []sl.Doc{{prop: lat[7]}}},
 		sl.Op{Name: "upd1(move back)", Kind: "upd", Ids: []int{1}, Docs: []sl.Doc{{prop: lat[0]}}},
 		sl.Op{Name: "upd(mix: 2 move, 3 remove, 5 add)", Kind: "upd", Ids: []int{2, 3, 5}, Docs: []sl.Doc{{prop: lat[8]}, {prop: "_delete"}, {prop: lat[9]}}},
@@ -96,7 +98,7 @@ func factory(raw json.RawMessage) (seqx.System, error) {
 }
 
 func master(cfg *harness.Config, rep *harness.Report) {
-	rep.Rule = "all write histories up to the depth over batches built to hurt the graph (mixed add/move/remove of the vector in one batch, deletion of a whole neighbourhood, delete-all then re-insert with every node id reused, repeated moves, vectorless points), from the empty shard and from 40 mutually equidistant points (one-hot vectors: pruning removes nothing, so the degree bound binds) with cluster-level deletes/moves/inserts, x alpha {1.1,1.5} x degreeBound {32,64} x {warm, reopened}; after every batch the bucket dump is checked: node set = vector set = entry node + live points with the field, every edge target exists and differs from its source, out-degree <= bound except the entry node, recorded max id bounds all ids, point store bijective, free list disjoint from live ids; plus a full-window search that must not fail or surface a removed point"
+	rep.Rule = "all write histories up to the depth over batches built to hurt the graph (mixed add/move/remove of the vector in one batch, deletion of a whole neighbourhood, delete-all then re-insert with every node id reused, repeated moves, vectorless points, vectors added to several vectorless points in one batch with the later point first), from the empty shard and from 40 mutually equidistant points (one-hot vectors: pruning removes nothing, so the degree bound binds) with cluster-level deletes/moves/inserts, x alpha {1.1,1.5} x degreeBound {32,64} x {warm, reopened}; after every batch the bucket dump is checked: node set = vector set = entry node + live points with the field, every edge target exists and differs from its source, out-degree <= bound except the entry node, recorded max id bounds all ids, point store bijective, free list disjoint from live ids; plus a full-window search that must not fail or surface a removed point"
 	rep.Assumptions = []string{"duplicate edges are counted, not flagged (the statement does not forbid them)", "entry vector random; one insert worker"}
 	p := pool.New(pool.Options{CPUsPerWorker: 2, JobTimeout: 60 * time.Second})
 	syms := symbols(2)
@@ -113,7 +115,7 @@ func master(cfg *harness.Config, rep *harness.Report) {
 	if !cfg.Quick() {
 		depth, depth40 = 5, 3
 	}
-	small := []string{"ins1", "ins2,3,4", "ins5(no vector),6", "upd1(move)", "upd1(move back)", "upd(mix: 2 move, 3 remove, 5 add)", "upd3(add vector back)", "upd1(non-vector field)", "del1", "del2,3,4(neighbourhood)", "del all", "ins1,2(reuse ids, new places)"}
+	small := []string{"ins1", "ins2,3,4", "ins5(no vector),6", "ins7,8(no vector)", "upd8,7(add vectors, later point first)", "upd1(move)", "upd1(move back)", "upd(mix: 2 move, 3 remove, 5 add)", "upd3(add vector back)", "upd1(non-vector field)", "del1", "del2,3,4(neighbourhood)", "del all", "ins1,2(reuse ids, new places)"}
 	big := []string{"del10 of the 40", "upd5 of the 40 (move between others)", "ins8 more equidistant", "ins2,3,4", "del2,3,4(neighbourhood)", "upd1(move)", "ins1"}
 	var specs []seqx.Spec
 	for _, alpha := range []float32{1.1, 1.5} {
